@@ -161,15 +161,20 @@ DepSeq(P, items, params, t) ==
 DepSet(P, items, params, t) == Range(DepSeq(P, items, params, t))
 
 (* ---- cycles -------------------------------------------------------------- *)
-RECURSIVE ReachN(_, _, _, _, _)
-\* types reachable from the frontier F by one or more dependency edges that stay inside provided types
-ReachN(P, items, params, F, acc) ==
-  LET prov == Provided(P, items, params)
-      nxt  == UNION {DepSet(P, items, params, t) : t \in F \cap prov}
+RECURSIVE ReachN(_, _, _)
+\* types reachable from the frontier F by one or more dependency edges that stay inside provided types;
+\* dep: provided type -> set of types it needs
+ReachN(dep, F, acc) ==
+  LET nxt  == UNION {dep[t] : t \in F \cap DOMAIN dep}
       new  == nxt \ acc
-  IN IF new = {} THEN acc ELSE ReachN(P, items, params, new, acc \cup new)
-ReachPlus(P, items, params, t) == ReachN(P, items, params, {t}, {})
-CyclicTypes(P, items, params) == {t \in Provided(P, items, params) : t \in ReachPlus(P, items, params, t)}
+  IN IF new = {} THEN acc ELSE ReachN(dep, new, acc \cup new)
+DepTable(P, items, params) ==
+  LET prov == Provided(P, items, params)
+      tab  == {<<t, DepSet(P, items, params, t)>> : t \in prov}      \* a set of pairs is evaluated once
+  IN [t \in prov |-> (CHOOSE pr \in tab : pr[1] = t)[2]]
+ReachPlus(dep, t) == ReachN(dep, {t}, {})
+CyclicTypes(P, items, params) ==
+  LET dep == DepTable(P, items, params) IN {t \in DOMAIN dep : t \in ReachPlus(dep, t)}
 
 (* ---- validity of a set level, by stage ----------------------------------- *)
 RECURSIVE LevelReasons(_, _, _)
@@ -184,13 +189,7 @@ LevelReasons(P, items, params) ==
              ELSE IF CyclicTypes(P, items, params) # {} THEN {"cycle"} ELSE {}
 
 (* ---- an injector ---------------------------------------------------------- *)
-RECURSIVE NeedN(_, _, _, _, _)
-NeedN(P, items, params, F, acc) ==
-  LET prov == Provided(P, items, params)
-      nxt  == UNION {DepSet(P, items, params, t) : t \in F \cap prov}
-      new  == nxt \ acc
-  IN IF new = {} THEN acc ELSE NeedN(P, items, params, new, acc \cup new)
-Needed(P, inj)  == NeedN(P, inj.items, inj.params, {inj.out}, {inj.out})
+Needed(P, inj)  == ReachN(DepTable(P, inj.items, inj.params), {inj.out}, {inj.out})
 Missing(P, inj) == Needed(P, inj) \ Provided(P, inj.items, inj.params)
 
 \* leaves (by index) the result transitively depends on
